@@ -389,6 +389,18 @@ func partB(r *vlib.Run) {
 		}
 	}
 	gen(nil)
+	// two peers on one procedure, one step deeper: counters are per peer, what one peer does never changes another's
+	var gen2 func(p []traffic)
+	gen2 = func(p []traffic) {
+		if len(p) == 6 {
+			seqs = append(seqs, append([]traffic{}, p...))
+			return
+		}
+		for _, f := range []int{0, 1} {
+			gen2(append(p, traffic{"ok", f}))
+		}
+	}
+	gen2(nil)
 	seen := map[string]bool{}
 	for _, seq := range seqs {
 		if r.Expired() {
